@@ -106,12 +106,21 @@ def main():
         for t in mod.THEOREMS:
             ctx.oblige("theorem:" + t, False, "not built")
 
+    # A mutated tree can make the real code hang (a leaked lock, a loop that does not end).  The runs below take
+    # well under two minutes (quick) / an hour (thorough) on the tree the framework was built for; past the deadline
+    # the run is cut, and "did not finish" is reported as a tie that no longer checks.
+    deadline = common.Deadline(int(os.environ.get("VERIF_DEADLINE", "0") or 0) or (1200 if tier == "quick" else 3 * 3600))
+    deadline.arm()
+
     # ---------------- C: correspondence -------------------------------------------------
     if model_ok:
         try:
             mod.correspondence(ctx)
         except common.GiveUp as e:
             ctx.notes.append("correspondence cut short: %s" % e)
+        except common.DeadlinePassed as e:
+            broken.append("correspondence run did not finish within %d s on this tree" % deadline.seconds)
+            ctx.oblige("correspondence:completed", False, "deadline")
         except common.subprocess.TimeoutExpired:
             print("harness timeout in correspondence", file=sys.stderr)
             return 2
@@ -138,6 +147,9 @@ def main():
         mod.oracle(ctx)
     except common.GiveUp as e:
         ctx.notes.append("oracle cut short: %s" % e)
+    except common.DeadlinePassed as e:
+        broken.append("property oracle did not finish within %d s on this tree" % deadline.seconds)
+        ctx.oblige("oracle:completed", False, "deadline")
     except common.subprocess.TimeoutExpired:
         print("harness timeout in oracle", file=sys.stderr)
         return 2
@@ -150,9 +162,13 @@ def main():
         ctx.search_mode = True
         ctx.notes.append("search mode entered: " + " | ".join(broken)[:1000])
         try:
-            mod.oracle(ctx)
+            if not deadline.passed:
+                mod.oracle(ctx)
+        except common.DeadlinePassed:
+            ctx.notes.append("search-mode oracle cut by the deadline")
         except Exception:
             ctx.notes.append("search-mode oracle crashed: " + traceback.format_exc()[-1500:])
+    deadline.disarm()
 
     return verdict(ctx, mod, broken)
 
